@@ -233,6 +233,48 @@ def op_jumps(vt):
     return [("x", (0, 3))], f
 
 
+def op_ext(vt):
+    """extended-format listing of version-vt code that uses operator, call and (where they exist) method-call opcodes: the
+    per-version operator/call classifications are read here"""
+    def f(x):
+        from xdis.bytecode import Bytecode
+        from props.common import make_portable, opc_tables, cache_entries
+        opc = opc_tables()["opcode_%d%d" % vt]
+        om = opc.opmap
+        word = vt >= (3, 6)
+        items = []
+
+        def emit(name, arg=0):
+            if name not in om:
+                return
+            op = om[name]
+            items.extend([op, arg] if word else ([op, arg, 0] if op >= opc.HAVE_ARGUMENT else [op]))
+            for _ in range(cache_entries(opc, op)):
+                items.extend([om["CACHE"], 0])
+        emit("LOAD_CONST", x)
+        emit("LOAD_CONST", 1)
+        emit("BINARY_ADD")
+        emit("BINARY_OP", 0)
+        emit("LOAD_CONST", 2)
+        emit("COMPARE_OP", 2 if vt < (3, 12) else 40)
+        emit("LOAD_NAME", 0)
+        emit("LOAD_METHOD", 1)
+        emit("LOAD_CONST", 0)
+        emit("CALL_METHOD", 1)
+        emit("LOAD_NAME", 0)
+        emit("LOAD_CONST", 0)
+        emit("CALL_FUNCTION", 1)
+        emit("UNARY_NEGATIVE")
+        emit("RETURN_VALUE")
+        kw = dict(co_code=bytes(items), co_consts=(1, 2, 3, 4), co_names=("n0", "n1"), co_varnames=(), co_name="<module>",
+                  co_filename="s.py", co_stacksize=4)
+        if vt < (3, 0):
+            kw["co_lnotab"] = ""
+        code = make_portable(vt, **kw)
+        return Bytecode(code, opc).dis(asm_format="extended")
+    return [("x", (0, 3))], f
+
+
 def op_marsh():
     def f(v):
         import xdis.marsh as MS
@@ -279,6 +321,7 @@ def operations():
         "std_api-27": op_std_api((2, 7)), "std_api-311": op_std_api((3, 11)),
         "dis-39-classic": op_dis((3, 9), "classic"), "dis-312-extended": op_dis((3, 12), "extended"),
         "disco-27-classic": op_disco((2, 7), "classic"), "disco-38-xasm": op_disco((3, 8), "xasm"),
+        "ext-27": op_ext((2, 7)), "ext-36": op_ext((3, 6)), "ext-38": op_ext((3, 8)), "ext-310": op_ext((3, 10)),
         "jumps-27": op_jumps((2, 7)), "jumps-38": op_jumps((3, 8)), "jumps-310": op_jumps((3, 10)), "jumps-311": op_jumps((3, 11)),
         "jumps-312": op_jumps((3, 12)), "jumps-313": op_jumps((3, 13)),
         "marsh": op_marsh(), "load_code-default-args": op_load_code_default(),
@@ -429,9 +472,9 @@ def generate(tier, seed):
         obs.append(frame_ob(name, spec, tier))
     probes = ["marsh-py2-B", "load-final38", "load-interim36", "load-interim35", "load-unknown", "get_opcode-39", "std_api-311", "dis-39-classic",
               "dis-312-extended", "disco-27-classic", "marsh", "load_code-default-args", "get_opcode_module-313", "load-host",
-              "jumps-38", "jumps-310", "jumps-312", "jumps-313"]
+              "jumps-38", "jumps-310", "jumps-312", "jumps-313", "ext-38", "ext-36", "ext-310"]
     prefixes = ["marsh-py2-A", "load-final38", "load-final27", "load-interim36", "load-unknown", "get_opcode-27pypy", "std_api-27", "dis-312-extended",
-                "disco-38-xasm", "marsh", "load_code-default-args", "load-host", "jumps-27", "jumps-311", "jumps-313"]
+                "disco-38-xasm", "marsh", "load_code-default-args", "load-host", "jumps-27", "jumps-311", "jumps-313", "ext-27", "ext-36", "ext-38"]
     for p in probes:
         for q in dict.fromkeys(prefixes + [p]):
             obs.append(order_ob(q, ops[q], p, ops[p], tier))
